@@ -126,7 +126,7 @@ func TestC04(t *testing.T) {
 		id++
 	}
 	run.Require("interleaved_histories_judged", int64(nh*2/3))
-	run.Require("asserted_cases_with_ok_candidate", int64(rep.Pick(140, 600)))
+	run.Require("asserted_cases_with_ok_candidate", int64(rep.Pick(140, 300)))
 	run.Require("followup_requests_judged", 50)
 	run.Require("circuit_open_cases", 10)
 	run.Finish(t)
